@@ -72,6 +72,15 @@ def enum_union_models():
         out.append(('enum-union', {'classes': [en, ws], 'root': ('list', ('union', members))}))
         out.append(('enum-union', {'classes': [en, ws, {'name': 'K', 'params': [('u', ('union', members))]}],
                                    'root': ('cls', 'K')}))
+    # classes written as a scalar by the documented recipes (a recogniser asking for a string, a savorize building the
+    # mapping): two of them in a Union are ambiguous for every string, only the explicit tag can select one
+    def parsed(name, types=('str',)):
+        return {'name': name, 'params': [('v', 'any')],
+                'hooks': {'recognize': [('require_scalar', list(types))], 'savorize': [('scalar_to_attr', 'v')]}}
+    for members in ([('cls', 'P1'), ('cls', 'P2')], [('cls', 'P1'), 'int'], [('cls', 'P1'), ('cls', 'Pn')], [('cls', 'P1'), ('cls', 'En')]):
+        cl = [en, ws, parsed('P1'), parsed('P2'), parsed('Pn', ('int', 'str'))]
+        out.append(('enum-union-parsed', {'classes': cl, 'root': ('union', members)}))
+        out.append(('enum-union-parsed', {'classes': cl, 'root': ('list', ('union', members))}))
     return out
 
 
